@@ -236,7 +236,7 @@ def rule_exit_machine(ctx):
     if 'reb_simulation_synchronize' not in ca:
         ctx.report('R08.4', 'integrate:final_sync', where, 'integrate does not synchronise after the loop')
     aa = assigns(after)
-    conds_after = ancestors_conditions(fn)
+    conds_after = pathcond.conditions(fn)          # flag locals expanded, early exits included
     rest = [(l, r_, e) for l, r_, e in aa if l == 'r.dt']
     if not any(r_ == 'last_full_dt' for l, r_, e in rest):
         ctx.report('R08.2', 'integrate:restore_dt', where, 'r->dt is not restored from last_full_dt after the loop: the user keeps the shortened last step')
